@@ -359,6 +359,71 @@ def replay_mysql323(p):
     return (not H.verify(p, h)) and "mysql323 does not verify its own hash of %r" % (p,)
 
 
+def ob_text_encoding(name, enc):
+    """hashers that take an encoding keyword: a text password and its bytes in that encoding are the same password"""
+    from passlib import registry
+    H = registry.get_crypt_handler(name)
+    kw = dict(c08.ctxkw(H), encoding=enc)
+    c = z3.BitVec("t0", 21)
+    t = SStr(["p", c, "w"], [1, 2, 1])
+    sbytes.FRESH_DIGESTS = True
+
+    def run():
+        sym.assume(z3.And(z3.UGE(c, 0xA0), z3.ULE(c, 0xFF)))
+        b = t.encode(enc)
+        h1 = H.hash(t, **kw)
+        h2 = H.hash(b, **kw)
+        return H.verify(b, h1, **kw), H.verify(t, h2, **kw), H.verify(t, h1, **kw)
+    try:
+        with patched(*_env(H)):
+            paths = explore(run, max_paths=200)
+    except Unsupported as e:
+        return inconclusive("Unsupported: %s" % e)
+    done = 0
+    for p in paths:
+        if p.exc is not None:
+            if isinstance(p.exc, Unsupported):
+                return inconclusive("Unsupported: %s" % p.exc)
+            r, m = check(p.cond())
+            if r == "sat":
+                return _eviol(name, enc, m, c, "raises %r" % (p.exc,))
+            continue
+        for v, what in zip(p.result, ("hash(text) does not verify the encoded bytes", "hash(bytes) does not verify the text",
+                                      "hash(text) does not verify the text")):
+            e = _bool(v)
+            r, m = _decide(p, [e], z3.Not(e))
+            if r == "sat":
+                return _eviol(name, enc, m, c, what)
+            if r != "unsat":
+                return inconclusive("solver %s" % r)
+        done += 1
+    if not done:
+        return inconclusive("no completed path")
+    return ok("%s with encoding=%s: a text password with any character U+00A0..U+00FF and its %s bytes are interchangeable (%d paths)" %
+              (name, enc, enc, done), paths=len(paths))
+
+
+def _eviol(name, enc, m, c, what):
+    ch = chr(m.eval(c, True).as_long()) if m is not None and hasattr(m, "eval") else "\xe9"
+    return violation("%s(encoding=%s), password %r: %s" % (name, enc, "p" + ch + "w", what), "roundtrip:%s:encoding" % name,
+                     {"module": "harness.c01", "func": "replay_text_encoding", "args": {"name": name, "enc": enc, "text": "p" + ch + "w"}})
+
+
+def replay_text_encoding(name, enc, text):
+    from passlib import registry
+    H = registry.get_crypt_handler(name)
+    kw = dict(c08.ctxkw(H), encoding=enc)
+    try:
+        b = text.encode(enc)
+        h1, h2 = H.hash(text, **kw), H.hash(b, **kw)
+        got = (H.verify(b, h1, **kw), H.verify(text, h2, **kw), H.verify(text, h1, **kw))
+    except Exception as e:
+        return "%s(encoding=%s) with password %r raises %r" % (name, enc, text, e)
+    if not all(got):
+        return "%s(encoding=%s): text %r / its bytes: verify results %r" % (name, enc, text, got)
+    return False
+
+
 def _viol(name, m, s1, s2, what, kind):
     g = lambda s: [m.eval(_t8(b), True).as_long() for b in s.b] if m is not None else [65] * len(s)   # noqa
     a, b = g(s1), g(s2)
@@ -457,6 +522,11 @@ def run(tier, seed, t0, only=None):
             obs.append(Ob("text[%s,%s]" % (n, "".join(map(str, pt))), ob_text, {"name": n, "pattern": pt}, timeout=420))
     for n in ((1, 2, 3) if tier == "quick" else (1, 2, 3, 4, 5)):
         obs.append(Ob("mysql323[%d]" % n, ob_mysql323, {"n": n}, timeout=900))
+    from passlib import registry as _reg
+    for n in names:
+        if "encoding" in getattr(_reg.get_crypt_handler(n), "context_kwds", ()):
+            for enc in (("latin-1",) if tier == "quick" else ("latin-1", "utf-8")):
+                obs.append(Ob("text-encoding[%s,%s]" % (n, enc), ob_text_encoding, {"name": n, "enc": enc}, timeout=600))
     if only:
         obs = [o for o in obs if only in o.name]
     results = runner.run_obligations(obs)
